@@ -50,6 +50,12 @@ class Rda(Engine):
             if self.faults and rng.random() < 0.2 and blocks:
                 blocks = blocks[:rng.randrange(len(blocks) + 1)]   # error/eof at the n-th callback
             ops = ['src ' + term + ''.join(' ' + hexb(b) for b in blocks)]
+            if rng.random() < 0.35 and len(blocks) >= 2:
+                # the same bytes as a multi-volume set: volume borders at arbitrary block borders
+                cuts = sorted(rng.sample(range(1, len(blocks)), min(len(blocks) - 1, rng.choice([1, 1, 2, 3]))))
+                parts = [blocks[i:j] for i, j in zip([0] + cuts, cuts + [len(blocks)])]
+                ops = ['src ' + term + ''.join(' ' + hexb(b) for b in parts[0])]
+                ops += ['node' + ''.join(' ' + hexb(b) for b in pt) for pt in parts[1:]]
             r = rng.random()
             if r < 0.5:
                 ks = []
